@@ -1,11 +1,17 @@
 (* C20 - Spec-side definitions (what the property text says), no proofs.
 
-   quiescent: the side condition of the _partial theorems and, literally, the
-   classifier `bind-crosses-use-cc` of tools/props/C20.py: computed from the
-   history and the records of the run only.
-     Q1  no midi-bind that is not the answer to a midi-use-CC is sent while a
-         controller is pending (offered, its answer not yet arrived);
-     Q2  no controller is offered while such a bind is on its way. *)
+   nocross: the side condition of the _partial theorems and, literally, the
+   predicate `nocross` of tools/props/C20.py (the class bind-crosses-use-cc is
+   contained in its complement): computed from the history and the records of
+   the run only.  The model driver evaluates it on every generated history and
+   the correspondence run compares it with the Python value.
+     N1  a midi-bind that is not the answer to a midi-use-CC (map / unMap /
+         clear send such binds) is sent only when every pending controller's
+         answer is already on its way: the number of pending controllers
+         (offered, not yet released by a bind) equals the number of answering
+         binds in flight;
+     N2  no controller is offered while such a bind is on its way.
+   (Stage 1-3 had the stronger `quiescent`: N1 with "nothing is pending".) *)
 From Coq Require Import List ZArith Bool.
 From RtoscV Require Import Midi.MidiModel.
 Import ListNotations.
@@ -23,30 +29,58 @@ Definition op_tags (r : list obs) : list tag :=
 Definition ans_tags (r : list obs) : list tag :=
   flat_map (fun o => match o with OB => [TBa] | _ => [] end) r.
 
-Fixpoint quiescent_from (pend : Z) (ch : list tag) (evs : list event) (tr : list (list obs)) : bool :=
+Definition is_TBa (t : tag) : bool := match t with TBa => true | _ => false end.
+Definition count_TBa (ch : list tag) : Z := Z.of_nat (length (filter is_TBa ch)).
+
+Fixpoint nocross_from (pend : Z) (ch : list tag) (evs : list event) (tr : list (list obs)) : bool :=
   match evs, tr with
   | e :: es, r :: rs =>
       match e with
       | EMap _ _ | EUnmap _ _ | EClear =>
-          if existsb is_OB r && negb (pend =? 0) then false
-          else quiescent_from pend (ch ++ op_tags r) es rs
+          if existsb is_OB r && negb (pend =? count_TBa ch) then false
+          else nocross_from pend (ch ++ op_tags r) es rs
       | ECC _ _ _ _ =>
           if existsb is_OU r then
-            if existsb is_TBf ch then false else quiescent_from (pend + 1) ch es rs
-          else quiescent_from pend ch es rs
-      | EDelN => quiescent_from pend (ch ++ ans_tags r) es rs
+            if existsb is_TBf ch then false else nocross_from (pend + 1) ch es rs
+          else nocross_from pend ch es rs
+      | EDelN => nocross_from pend (ch ++ ans_tags r) es rs
       | EDelR =>
           match ch with
-          | [] => quiescent_from pend ch es rs
+          | [] => nocross_from pend ch es rs
           | t :: ch' =>
-              quiescent_from (if is_TB t && (0 <? pend) then pend - 1 else pend) ch' es rs
+              nocross_from (if is_TBa t && (0 <? pend) then pend - 1 else pend) ch' es rs
           end
       end
   | _, _ => true
   end.
 
-Definition quiescent (evs : list event) (tr : list (list obs)) : bool :=
-  quiescent_from 0 [] evs tr.
+Definition nocross (evs : list event) (tr : list (list obs)) : bool :=
+  nocross_from 0 [] evs tr.
+
+(* The realtime side's pending controllers as the records imply them: an
+   offered controller enters at the back, every delivered midi-bind that
+   answers a midi-use-CC removes the front.  (`pending_before` of tools/props/C20.py; the classifier compares it
+   with the controllers whose answer is outstanding.  The model driver prints
+   it and whether it is what the model's ring holds.) *)
+Fixpoint pending_from (P : list Z) (ch : list tag) (evs : list event) (tr : list (list obs)) : list Z :=
+  match evs, tr with
+  | e :: es, r :: rs =>
+      match e with
+      | EMap _ _ | EUnmap _ _ | EClear => pending_from P (ch ++ op_tags r) es rs
+      | ECC _ _ _ _ =>
+          pending_from (P ++ flat_map (fun o => match o with OU i => [i] | _ => [] end) r) ch es rs
+      | EDelN => pending_from P (ch ++ ans_tags r) es rs
+      | EDelR =>
+          match ch with
+          | [] => pending_from P ch es rs
+          | t :: ch' => pending_from (if is_TBa t then tl P else P) ch' es rs
+          end
+      end
+  | _, _ => P
+  end.
+
+Definition pending_of (evs : list event) (tr : list (list obs)) : list Z :=
+  pending_from [] [] evs tr.
 
 (* 14-bit composition as the text states it: the coarse controller supplies
    bits 7..13, the fine controller bits 0..6 *)
@@ -147,7 +181,8 @@ Definition part (t : atab) (v7 : list (Z * Z)) (a : Z) (c : bool) : Z :=
 Definition comp (t : atab) (v7 : list (Z * Z)) (a : Z) : Z :=
   (part t v7 a true * 128 + part t v7 a false)%Z.
 
-Inductive amsg := AWatch | AUnwatch | ABind (t : atab).
+(* ABind t ans: the table, and whether it is the answer to a midi-use-CC *)
+Inductive amsg := AWatch | AUnwatch | ABind (t : atab) (ans : bool).
 
 Record astate := {
   a_queue : list (Z * bool);
@@ -165,7 +200,7 @@ Definition astate0 : astate :=
      a_pend := []; a_watch := 0%Z |}.
 
 Definition obs_of_amsg (m : amsg) : obs :=
-  match m with AWatch => OW | AUnwatch => OR | ABind _ => OB end.
+  match m with AWatch => OW | AUnwatch => OR | ABind _ _ => OB end.
 
 Definition a_send (s : astate) (q : list (Z * bool)) (t : atab) (cn : list Z) (out : list amsg)
   : astate :=
@@ -174,7 +209,7 @@ Definition a_send (s : astate) (q : list (Z * bool)) (t : atab) (cn : list Z) (o
 
 Definition a_unmap_out (s : astate) (k : Z * bool) : atab * list amsg :=
   match at_ctl k (a_tab s) with
-  | Some _ => (at_remove k (a_tab s), [ABind (at_remove k (a_tab s))])
+  | Some _ => (at_remove k (a_tab s), [ABind (at_remove k (a_tab s)) false])
   | None => (a_tab s, [])
   end.
 
@@ -191,7 +226,7 @@ Definition astep (ports : list port) (s : astate) (e : event) : astate * list ob
       let '(t, out) := a_unmap_out s (a, c) in
       (a_send s (a_queue s) t (a_chN s) out, map obs_of_amsg out)
   | EClear =>
-      let out := map (fun _ => AUnwatch) (a_queue s) ++ [ABind []] in
+      let out := map (fun _ => AUnwatch) (a_queue s) ++ [ABind [] false] in
       (a_send s [] [] (a_chN s) out, map obs_of_amsg out)
   | ECC par val chan nrpn =>
       let id := cc_id par chan nrpn in
@@ -216,10 +251,10 @@ Definition astep (ports : list port) (s : astate) (e : event) : astate * list ob
       | [] => (s, [OE])
       | id :: rest =>
           match a_queue s with
-          | [] => (a_send s [] (a_tab s) rest [], [OA id None])
+          | [] => (a_send s [] (a_tab s) rest [ABind (a_tab s) true], [OA id None; OB])
           | k :: q =>
               let t := a_tab s ++ [(id, k)] in
-              (a_send s q t rest [ABind t], [OA id (Some k); OB])
+              (a_send s q t rest [ABind t true], [OA id (Some k); OB])
           end
       end
   | EDelR =>
@@ -235,13 +270,13 @@ Definition astep (ports : list port) (s : astate) (e : event) : astate * list ob
               ({| a_queue := a_queue s; a_tab := a_tab s; a_chN := a_chN s; a_chR := rest;
                   a_rtab := a_rtab s; a_v7 := a_v7 s; a_pend := a_pend s;
                   a_watch := if (a_watch s =? 0)%Z then 0%Z else (a_watch s - 1)%Z |}, [])
-          | ABind t =>
+          | ABind t ans =>
               ({| a_queue := a_queue s; a_tab := a_tab s; a_chN := a_chN s; a_chR := rest;
                   a_rtab := t;
                   a_v7 := map (fun e => (fst e, match at_find (fst e) (a_rtab s) with
                                                 | Some _ => v7_get (a_v7 s) (fst e)
                                                 | None => 0%Z end)) t;
-                  a_pend := tl (a_pend s); a_watch := a_watch s |}, [])
+                  a_pend := (if ans then tl (a_pend s) else a_pend s); a_watch := a_watch s |}, [])
           end
       end
   end.
